@@ -133,13 +133,15 @@ def run(prog, chk):
         raise AnalysisBroken('reset accumulation loop writes amplitudes')
     a0 = {k: sp.simplify(v) for k, v in accs[0][1].items()}
     a1 = {k: sp.simplify(v) for k, v in accs[1][1].items()}
-    p0_id = [k for k, v in a0.items() if v == sp.Abs(KP.A[0]) ** 2]
-    p1_id = [k for k, v in a1.items() if v == sp.Abs(KP.A[1]) ** 2]
-    okacc = len(p0_id) == 1 and len(p1_id) == 1 and len(a0) == 1 and len(a1) == 1 and p0_id != p1_id
+    # what one pair of cells contributes to each sum over all its visits (which visit adds it does not matter for the sum)
+    tot = {k: sp.simplify(a0.get(k, 0) + a1.get(k, 0)) for k in set(a0) | set(a1)}
+    p0_id = [k for k, v in tot.items() if v == sp.Abs(KP.A[0]) ** 2]
+    p1_id = [k for k, v in tot.items() if v == sp.Abs(KP.A[1]) ** 2]
+    okacc = len(p0_id) == 1 and len(p1_id) == 1 and len(tot) == 2 and p0_id != p1_id
     inits = {v['id']: SX.strip(v.get('init')) for v in doubles}
     zero = okacc and all(SX.is_node(inits.get(i)) and inits[i].get('v') in (0, 0.0) for i in (p0_id[0], p1_id[0]))
     chk.ob('R04.1', rs, loops[0].get('ln', rs.ln), okacc and zero,
-           'weights: bit clear adds %s, bit set adds %s, both from 0 over the full range' % (a0, a1), key='weights')
+           'weights: one pair contributes %s to the sums (expected |A0|² to one, |A1|² to the other), both from 0 over the full range' % (tot,), key='weights')
     if not okacc:
         return
     p0, p1, r = sp.Symbol('p0', positive=True), sp.Symbol('p1', positive=True), sp.Symbol('r', nonnegative=True)
